@@ -40,10 +40,26 @@ class CsrfReplayer:
         self.kid = next(iter(self.ids['keys']))
         self.hook = True
 
-    def new_walk(self) -> None:
+    def new_walk(self, variant: int = 0) -> None:
+        """two clients with different csrf cookies.  variant 0: both cookies are the ones the server issued; otherwise the
+        second client chooses its own cookie value (a client may send any cookie it likes) as a near-copy of the first
+        client's: last / first / middle character changed, one character appended, one character dropped."""
         self.sessions = {'c1': self.Session(self.da, 'media'), 'c2': self.Session(self.da, 'media')}
         for s in self.sessions.values():
             s.harvest(self.spk)       # obtain the csrf cookie
+        if variant:
+            c1 = self.sessions['c1'].csrf_cookie()
+
+            def other(ch: str) -> str:
+                return 'A' if ch != 'A' else 'B'
+            mid = len(c1) * 3 // 4
+            crafted = {1: c1[:-1] + other(c1[-1]), 2: other(c1[0]) + c1[1:], 3: c1[:mid] + other(c1[mid]) + c1[mid + 1:],
+                       4: c1 + 'A', 5: c1[:-1]}[variant]
+            x = self.sessions['c2']
+            x.client.set_cookie('csrf', crafted, domain='localhost', path='/')
+            x.harvest(self.spk)
+            if x.csrf_cookie() != crafted:
+                raise MachineryFailure('the service did not keep the csrf cookie value the client chose')
         if self.sessions['c1'].csrf_cookie() == self.sessions['c2'].csrf_cookie():
             raise MachineryFailure('two cookie jars share one csrf cookie')
         self.tokens: dict[int, str] = {}
@@ -129,7 +145,7 @@ def csrf_walks(edges: list[dict[str, Any]], da, rng: random.Random, nwalks: int,
     ]
     for w in range(nwalks):
         tid = w + 1
-        rp.new_walk()
+        rp.new_walk(variant=w % 6)
         cur = init
         restarted = 0
         epoch = 0
